@@ -54,6 +54,10 @@ def gen_gate(tier, rng):
             if tb != t and tb not in meta_trees:
                 cases.append(dump(['sat', E_parse(tb), pv]))
                 meta_trees[tb] = rb
+    # Range::any() -- the one range no text parses to (both bounds unbounded): no comparator is tagged, so it admits every release and no prerelease
+    any_probes = [V(0, 0, 0), V(0, 0, 0, (0,)), V(1, 2, 3), V(1, 2, 3, ('alpha',)), V(2, 0, 0, ('rc', 1), ('build', 5)), V(MAX, MAX, MAX), V(MAX, MAX, MAX, ('a',)), V(1, 0, 0, (), ('b',))]
+    cases.append(dump(['sat', ['any'], [enc_version(v) for v in any_probes]])); cases.append(dump(['within', ['any'], [enc_version(v) for v in any_probes]]))
+    gen_gate.any_probes = any_probes
     gen_gate.trees = meta_trees
     probes = range(nprobes // max(1, len(meta_trees)))
     return cases, {'exhaustive': True, 'single_comparators': len(singles), 'random_alternatives': n, 'multi_alternative': len(multi),
@@ -162,6 +166,14 @@ def eval_gate(triples, tier, rng):
             vs = [v for v in s if v[3] and not v[4]][:6]
             if vs:
                 certs.append('map (r_satisfies %s) [%s] = [%s]' % (F.g_range(st), ';'.join(F.g_version(v) for v in vs), ';'.join(F.g_bool(s[v]) for v in vs)))
+    for c, o, v_ in triples:
+        pc = parse(c)
+        if pc[0] == 'sat' and pc[1] == ['any'] and o not in ('panic', '(inconsistent)'):
+            po = parse(o)
+            for ver, b in zip(gen_gate.any_probes, po[1]):
+                if (b == 'true') != (not ver[3]):
+                    fails.append({'what': 'Range::any() %s %s: it has no tagged comparator, so it admits every release and no prerelease' % ('admits' if b == 'true' else 'rejects', vtext(ver)),
+                                  'case': dump(['sat', ['any'], [enc_version(ver)]]), 'input': ['Range::any()', vtext(ver)], 'kind': 'gate-any'})
     return {'failures': fails, 'nontrivial': nontrivial, 'distribution': dist, 'certs': certs}
 
 # ------------------------------------------------------------------ C14
@@ -196,7 +208,17 @@ def gen_extreme(tier, rng):
         for perm in (ev, rng.sample(ev, len(ev))):
             cases.append(dump(['maxsat', e, perm])); cases.append(dump(['minsat', e, perm]))
         cases.append(dump(['sat', e, ev]))
-    return cases, {'random_ranges_with_lists': lists,
+    # long lists: SIZES elements, the extreme tuples present as release AND as admitted prerelease, the release placed before its prerelease,
+    # in the given order, reversed and shuffled
+    nlong = 0
+    for nn in SIZES:
+        core = [V(1, 9, 0), V(1, 2, 3)] + [V(1, 3 + (i % 5), i) for i in range(nn - 4)] + [V(1, 2, 3, ('beta', 2)), V(1, 9, 0, ('rc', 1))]
+        for t in ('>=1.2.3-beta.1 <=1.9.0 || >=1.9.0-rc.0 <2.0.0', '>=1.2.3-beta.1 <2.0.0', '*', '^1.2.3-beta.1 || 1.9.0-rc.1'):
+            e = E_parse(t)
+            for l in (core, core[::-1], rng.sample(core, len(core))):
+                ev = [enc_version(v) for v in l]; nlong += 1
+                cases.append(dump(['maxsat', e, ev])); cases.append(dump(['minsat', e, ev])); cases.append(dump(['sat', e, ev]))
+    return cases, {'random_ranges_with_lists': lists, 'long_lists': nlong,
                    'what': '%d random ranges, each with a list of 0-9 versions drawn around its bounds (unsorted, duplicates up to build metadata, prereleases above the highest satisfying release), '
                            'max_satisfying and min_satisfying on the list and on a random permutation of it, satisfies on every element' % lists}
 
